@@ -128,6 +128,64 @@ def h_narrow(ta, n_ts, p_tsi=0, p_peer=0):
     return ['chosen']
 
 
+def h_initiator(n_ts, mode_conf, notify_kind):
+    """one step of the real IkeSa: the initiator of a CREATE_CHILD_SA exchange receives a response whose TSi/TSr selectors (n_ts each, all fields
+    symbolic) and transport-mode notification are arbitrary; whatever reaches the kernel must lie inside what it offered and keep the mode"""
+    from symx import core
+    from . import world, c11
+    eng = core.engine()
+    m, ik = MODS['message'], MODS['ikesa']
+    p = world.Pair(mode=mode_conf)
+    req = p.to_state('A', 'NEW_CHILD_REQ_SENT')
+    a = p.a
+    offered_i, offered_r = list(a.creating_child_sa.tsi), list(a.creating_child_sa.tsr)
+    res = p.send('B', req)
+    real_res = m.Message.parse(bytes(res), crypto=a.peer_crypto)
+    tsis = [_sel(eng, f'tsi{i}', 7, 6) for i in range(n_ts)]
+    tsrs = [_sel(eng, f'tsr{i}', 7, 6) for i in range(n_ts)]
+    enc = []
+    for x in real_res.encrypted_payloads:
+        if x.type == m.Payload.Type.TSi:
+            enc.append(m.PayloadTSi([t for t, _ in tsis]))
+        elif x.type == m.Payload.Type.TSr:
+            enc.append(m.PayloadTSr([t for t, _ in tsrs]))
+        elif x.type == m.Payload.Type.NOTIFY and x.notification_type == m.PayloadNOTIFY.Type.USE_TRANSPORT_MODE:
+            if notify_kind == 'keep':
+                enc.append(x)
+        else:
+            enc.append(x)
+    if notify_kind == 'add' and not any(x.type == m.Payload.Type.NOTIFY for x in enc):
+        enc.append(m.PayloadNOTIFY(m.Proposal.Protocol.NONE, m.PayloadNOTIFY.Type.USE_TRANSPORT_MODE))
+    msg = m.Message(spi_i=a.spi_i, spi_r=a.spi_r, major=2, minor=0, exchange_type=36, is_response=True, can_use_higher_version=False,
+                    is_initiator=False, message_id=a.my_msg_id, payloads=[], encrypted_payloads=enc)
+    msg.is_protected = True
+    installed = []
+    X = ik.xfrm.Xfrm
+    saved = X.__dict__['create_child_sa']
+    X.create_child_sa = classmethod(lambda cls, ike_sa, child_sa, keyring, is_initiator: installed.append(child_sa))
+    c11.MODS = MODS
+    try:
+        c11.deliver_object(a, p.A, msg)
+    finally:
+        X.create_child_sa = saved
+    if not installed:
+        return ['initiator', 'refused']
+    ch = installed[0]
+    fields = {id(t): f for t, f in tsis + tsrs}
+    fi, fr = fields.get(id(ch.tsi)), fields.get(id(ch.tsr))
+    if fi is None or fr is None:
+        return {'class': ['initiator'], 'violation': 'the installed selectors are not selectors of the response'}
+    off_i = [(int(t.ts_type), int(t.ip_proto), t.start_port, t.end_port, int(t.start_addr), int(t.end_addr)) for t in offered_i]
+    off_r = [(int(t.ts_type), int(t.ip_proto), t.start_port, t.end_port, int(t.start_addr), int(t.end_addr)) for t in offered_r]
+    inside = lambda f, offs: core.sym_or(*[core.sym_not(core.sym_and(_in(f, _witness(f, o)), core.sym_not(_in(o, _witness(f, o))))) for o in offs])
+    eng.prove(core.sym_and(inside(fi, off_i), inside(fr, off_r)), 'selectors wider than what the initiator offered reached the kernel (a widened response was installed)')
+    want_transport = (mode_conf == 'transport')
+    has_notify = any(x.type == m.Payload.Type.NOTIFY and x.notification_type == m.PayloadNOTIFY.Type.USE_TRANSPORT_MODE for x in enc)
+    if has_notify != want_transport or int(ch.mode) != (0 if want_transport else 1):
+        return {'class': ['initiator'], 'violation': 'a response with another transport/tunnel mode than requested was installed'}
+    return ['initiator', 'installed']
+
+
 def h_port():
     from symx import core
     eng = core.engine()
@@ -165,15 +223,30 @@ def build_instances(tier):
         for n, pi, pp in ((1, 0, 6), (1, 6, 17)):
             inst.append(Instance(f'_get_ipsec_configuration type={ta} protos={pi},{pp} |TSi|=|TSr|={n}', h_narrow, (ta, n, pi, pp),
                                  must_reach=[('refused', lambda o: o == ['refused'])]))
+    for n in ((1, 2) if tier == 'quick' else (1, 2, 3)):
+        for mode_conf in ('transport', 'tunnel'):
+            for nk in ('keep', 'drop', 'add'):
+                if tier == 'quick' and n == 2 and nk != 'keep':
+                    continue
+                inst.append(Instance(f'initiator response |TS|={n} mode={mode_conf} notify={nk}', h_initiator, (n, mode_conf, nk),
+                                     engine_kw={'max_wall_s': 600}))
     inst.append(Instance('from_network/get_port round trip', h_port, ()))
     inst.append(Instance('get_port', h_getport, ()))
     return inst
+
+
+def _load_world_native():
+    global MODS
+    from . import world
+    MODS = world.load(shim=False)
 
 
 def replay_file(path):
     """native replay of a selector counterexample: recompute is_subset and brute-force the packet semantics on the
     boundary packets of both selectors"""
     global MODS
+    if 'initiator response' in json.load(open(path)).get('instance', ''):
+        return common.generic_replay_file(path, lambda: build_instances('thorough') + build_instances('quick'), _load_world_native)
     MODS = common.load_repo(shim=False)
     TS = MODS['message'].TrafficSelector
     v = json.load(open(path))
@@ -237,7 +310,8 @@ def replay_file(path):
 
 def main(tier, seed):
     global MODS
-    MODS = common.load_repo()
+    from . import world
+    MODS = world.load(shim=True)
     m, ik = MODS['message'], MODS['ikesa']
     chk = Check('C12', tier, seed,
                 functions=common.src_hash(m.TrafficSelector.is_subset, m.TrafficSelector.from_network, m.TrafficSelector.get_port,
